@@ -78,6 +78,7 @@ type Case struct {
 	Batch bool
 	// NestedAt > 0: at that probe invocation (in a condition or an action) the fact method runs another small
 	// knowledge base to its end on the same engine value before the outer run goes on.
+	// NestedAt < 0: at every probe invocation from the (-NestedAt)-th on.
 	NestedAt int
 	// RemovedText / RemovedName / RemovedVia: a further rule (made of the rule set's own material) is built into
 	// the knowledge base and removed again before anything runs - through the library ("library") or from the
@@ -389,7 +390,7 @@ func RunOn(c *Case, p *Prepared, kb *ast.KnowledgeBase) *Report {
 	var theEngine *engine.GruleEngine
 	nestedDone := false
 	probe.OnCall = func(name string, id int64, n int) {
-		if c.NestedAt > 0 && n == c.NestedAt && !nestedDone && theEngine != nil {
+		if theEngine != nil && ((c.NestedAt > 0 && n == c.NestedAt && !nestedDone) || (c.NestedAt < 0 && n >= -c.NestedAt)) {
 			nestedDone = true
 			for _, r := range recs {
 				r.Mute = true
